@@ -255,7 +255,13 @@ class FakeRe:
 
     def compile(self, p, flags=0):
         self.compiled.append((p, flags))
-        if _isb(p):
+        # CPython's own argument checks
+        is_bytes = (p.kind == 'b') if _isb(p) else isinstance(p, bytes)
+        if is_bytes and (flags & _real_re.UNICODE):
+            raise ValueError('cannot use UNICODE flag with a bytes pattern')
+        if not is_bytes and (flags & _real_re.LOCALE):
+            raise ValueError('cannot use LOCALE flag with a str pattern')
+        if _isb(p) or is_bytes:
             pat = LitPat(p)
             pat.flags = flags
             return pat
